@@ -61,9 +61,8 @@ ExpectedFor(g, globals, pkgtags) ==
                          LAMBDA i : Enabled(GenNames[g], Effective(globals, pkgtags, Placements[Decls[i].place])))
     IN [k \in 1..Len(idx) |-> [kind |-> CallKind(Decls[idx[k]].kind), gen |-> g, type |-> Decls[idx[k]].name]]
 
-RECURSIVE ExpectedCalls(_, _, _, _)
-ExpectedCalls(gens, i, globals, pkgtags) ==
-    IF i > Len(gens) THEN <<>> ELSE ExpectedFor(gens[i], globals, pkgtags) \o ExpectedCalls(gens, i + 1, globals, pkgtags)
+(* (the concatenation over the generators of a run, ExpectedCalls, is defined in DispatchTrace: this module is kept free of
+   recursive definitions so that the proof system can read it - specs/proofs/DispatchProof.tla) *)
 
 (* ---------------------------------------------------------------- design-level sanity (Loop A) *)
 VARIABLES gp, pp, gens
